@@ -148,11 +148,30 @@ func (e *Exec) hmacDigest(h *hmacObj) []*Term {
 		return out
 	}
 	if e.opaque["hmacfresh"] == true {
-		// digest as fresh variables (no congruence between calls): for harnesses that only
-		// need "some digest"
+		// digest as fresh variables; calls with structurally identical (algorithm, key, message)
+		// share them (sound: identical terms denote identical values), other pairs are unrelated
+		var sb strings.Builder
+		sb.WriteString(h.alg)
+		for _, t := range h.key {
+			fmt.Fprintf(&sb, ",%d", t.id)
+		}
+		sb.WriteString("|")
+		for _, t := range h.msg {
+			fmt.Fprintf(&sb, ",%d", t.id)
+		}
+		memo, _ := e.opaque["hmacmemo"].(map[string][]*Term)
+		if memo == nil {
+			memo = map[string][]*Term{}
+			e.opaque["hmacmemo"] = memo
+		}
+		if d, ok := memo[sb.String()]; ok {
+			h.digest = d
+			return d
+		}
 		for i := range out {
 			out[i] = e.freshVar(fmt.Sprintf("hmac%d_%d", h.seq, i), 8)
 		}
+		memo[sb.String()] = out
 		h.digest = out
 		return out
 	}
